@@ -230,7 +230,21 @@ func isLogging(call *ast.CallExpr) bool {
 
 // runSweep analyses every mutant with all rules and prints one line per mutant.
 func runSweep(repo string, only string, workers int) int {
-	ms, err := genMutants(repo)
+	var ms []sweepMutant
+	var err error
+	switch os.Getenv("GOPKICHECK_SWEEP_OPS") { // "" = the syntactic operators, "typed" = the type-aware ones, "all" = both
+	case "typed":
+		ms, err = genTypedMutants(repo)
+	case "all":
+		ms, err = genMutants(repo)
+		if err == nil {
+			var t []sweepMutant
+			t, err = genTypedMutants(repo)
+			ms = append(ms, t...)
+		}
+	default:
+		ms, err = genMutants(repo)
+	}
 	if err != nil {
 		fmt.Println("sweep:", err)
 		return 2
